@@ -116,7 +116,20 @@ func c03Ops(s []int) []ref.Op {
 	return ops
 }
 
+// c03PowNegative: the element-wise power function on negative bases: integer exponents give the
+// signed power, non-integer exponents give NaN (x^a is not a real number), zero gives 0 / 1 / +Inf.
+func c03PowNegative(c *core.Ctx) {
+	for _, a := range []float64{0.5, 1. / 3, 2. / 3, -0.5, 1.5, 2.5, -1. / 3, 0.2, 3, -3, 2, -2, 0, 1} {
+		a := a
+		c.Case(fmt.Sprintf("pownegative/%g", a), true, func() core.Verdict {
+			x := &ref.T{Shape: []int{2, 4}, V: []float64{-8, -1, -1e-3, -27, 8, 0.001, -0.5, 27}}
+			return applyBoth(ref.Op{K: "Pow", F: a}, []*ref.T{x}, false)
+		})
+	}
+}
+
 func checkC03(c *core.Ctx) {
+	defer c03PowNegative(c)
 	defer sweepC03(c)
 	defer sidefxCases(c, "Scale", "Pow", "Exp", "Log", "Sin", "Cos", "Tan", "Sinh", "Cosh", "Tanh", "Add", "Sub", "Mul", "Div", "ElMax", "ElMin")
 	defer selfCases(c, false, "elementwise", "compare")
